@@ -47,6 +47,11 @@ def build(u):
         'abstract typer state (views of the tables + contextual type); every recorded type stays well formed.  Assumed of Expression::analyze and analyze_type: a reported type is well formed.  '
         'Assumed of Expression::analyze: an expression that reports a type is not an automatic coercion of a poisoned expression (Expression::location is unreachable!() there)',
         'caller obligation (precondition of Statement::analyze): every type recorded in the symbol table is well formed',
+        'callees VERIFIED IN OTHER UNITS, external bodies here with the contract they are verified against there (same oracle text): Typer::get_type_of_reference (U-TYPREF: the answer is '
+        'type_of_place of the reference; the uninterpreted gtr_type / gtr_ref are pinned to it) and analyze_assignment_steps (U-TYPAS: as_fold / as_finish; as_steps / as_state pinned to it).  '
+        'Their preconditions become caller obligations of Statement::analyze / analyze_assignment: gtr_pre (every structure the assigned place passes through has been declared) and as_pre (walking the '
+        'steps from the recorded type of the base meets no unreachable!()).  as_pre FOLLOWS from "the place has a type" in the table state of get_type_of_reference (theorem_typed_place_can_be_walked, '
+        'U-TYPAS) but is needed after the value and the index expressions were analysed (uninterpreted effects on the table), so it cannot be discharged here',
         'the symbol-table functions are re-verified here under the contracts of contracts/u_sym.vc (imported verbatim), the value_type.rs predicates under those of contracts/u_vt.vc',
         'trusted: as U-SYM (HashMap::get_mut spec, Result::clone spec, vstd HashMap/Option/Result/String specs, derived Clone identity, derived PartialEq of ValueType is teq)',
         'opaque: Location, lexer::Error, DeclarationFlag, EnumSet<T>',
@@ -83,6 +88,8 @@ def build(u):
     u.emit(T, 'struct Structure', pub_fields=True)
     u.include('spec/u_sym_spec.rs', kind='spec')
     u.include('spec/u_typst_spec.rs', kind='spec')
+    u.include('spec/u_typas_spec.rs', kind='spec')
+    u.include('spec/u_typref_spec.rs', kind='spec')
     u.emit(E, 'impl From<Error> for Poison')
     u.emit(C, 'impl Identifier', only=['inferred'])
     u.emit(C, 'impl Expression', only=['location'])
